@@ -482,7 +482,7 @@ def main() -> None:
                               "/repo on every run by differential trace validation",
         }],
         "checks": checks,
-        "notes": "fix: commits in /repo (genuine defects F1-F7, see DESIGN.md section 4 and "
+        "notes": "fix: commits in /repo (genuine defects F1-F13, see DESIGN.md section 4 and "
                  "known_findings.json): 4638e52 67841a0 5768bf9 6c88bdf 30b537a aa53644 4d3f7cb 42dfeea b9ceb54 "
                  "b31d463 8e74f9e 17e7c0a afa90d6 (F1-F13)",
         "not_applicable": na,
